@@ -63,12 +63,12 @@ def run_race(ctx):
             report_violation(ctx, "oracle", "the race detector reports a data race (GOMAXPROCS=%d): %s" % (procs, "; ".join(where[:3])), payload, "race-p%d-%d" % (procs, i))
         elif js is None:
             report_violation(ctx, "crash", "harness race did not complete (exit %d)" % rc, payload, "race-crash-p%d-%d" % (procs, i))
-        elif rc != 0 or js.get("partA_mismatches", 0) or js.get("partB_mismatches", 0):
+        elif rc != 0 or js.get("partA_mismatches", 0) or js.get("partB_mismatches", 0) or js.get("partC_mismatches", 0):
             payload["report"] = {k: v for k, v in js.items() if k != "nontrivial_hashes"}
             report_violation(ctx, "oracle", "a goroutine observed a result that differs from the sequential execution (GOMAXPROCS=%d): %s"
                              % (procs, js.get("first_mismatch", "")[:400]), payload, "race-mismatch-p%d-%d" % (procs, i))
         if js:
-            ops += js.get("partA_ops", 0) + js.get("partB_ops", 0)
+            ops += js.get("partA_ops", 0) + js.get("partB_ops", 0) + js.get("partC_ops", 0)
             mism += js.get("partA_mismatches", 0) + js.get("partB_mismatches", 0)
             histories += js.get("partA_histories", 0)
             readers += js.get("partB_readers", 0) * js.get("partB_trees", 0)
@@ -76,7 +76,7 @@ def run_race(ctx):
             nontrivial |= set(js.get("nontrivial_hashes", []))
             samples += js.get("samples", [])[1:4]
             run.update({k: js.get(k) for k in ("partA_goroutines", "partA_histories", "partA_histories_with_wide_nodes", "partA_ops", "partA_mismatches",
-                                               "partB_trees", "partB_readers", "partB_ops", "partB_mismatches", "partB_tree_sizes", "yields", "panics")})
+                                               "partB_trees", "partB_readers", "partB_ops", "partB_mismatches", "partB_tree_sizes", "partC_goroutines", "partC_ops", "partC_mismatches", "yields", "panics")})
             run["kinds_partA"] = len(js.get("partA_kinds", []))
         runs.append(run)
         if len(ctx.violations) >= 3:
@@ -131,9 +131,16 @@ def heap_excesses(js):
         if b.get("retained_after_deleting_everything", 0) > HEAP_BULK_RETAINED:
             bad.append((b["kind"], "bulk: retained after deleting %d keys (peak %d B)" % (b.get("keys", 0), b.get("peak_bytes", 0)),
                         b["retained_after_deleting_everything"], HEAP_BULK_RETAINED))
+    for c in js.get("cross_tree", []):
+        # small trees that took over the nodes a big tree released keep alive what THEY store (a few hundred bytes each)
+        if c.get("retained_by_the_small_trees_after_the_big_tree_is_gone", 0) > HEAP_CROSS_RETAINED:
+            bad.append(("alpha/string", "cross-tree: retained by %d small trees after a tree with %d-byte values (%d B) is gone"
+                        % (c.get("groups", 0), c.get("value_bytes", 0), c.get("big_tree_bytes", 0)),
+                        c["retained_by_the_small_trees_after_the_big_tree_is_gone"], HEAP_CROSS_RETAINED))
     return bad
 
 HEAP_BULK_RETAINED = 512 * 1024
+HEAP_CROSS_RETAINED = 512 * 1024
 
 def run_heap(ctx):
     from vprops import finish, proof_leg, report_violation, corpus_replays
@@ -165,7 +172,8 @@ def run_heap(ctx):
             ops += 3 * k["n"] + 2 * k["keys"]
             if not [b for b in bad if b[0] == k["kind"]]:
                 kinds_ok.add((seed, k["kind"]))
-        runs.append({"seed": seed, "n": N, "wall_s": round(time.time() - t0, 1), "noise_bytes": js.get("noise_bytes"), "kinds": js["kinds"]})
+        runs.append({"seed": seed, "n": N, "wall_s": round(time.time() - t0, 1), "noise_bytes": js.get("noise_bytes"), "kinds": js["kinds"],
+                     "bulk": js.get("bulk"), "cross_tree": js.get("cross_tree")})
         samples += [{"kind": k["kind"], "keys": k["keys"], "operations_per_phase": k["n"], "tree_bytes": k["built_bytes"],
                      "bytes_per_op": {"queries": k["query_bytes_per_op"], "overwrites": k["overwrite_bytes_per_op"], "churn": k["churn_bytes_per_op"]},
                      "retained_after_deleting_everything": k["empty_after_deletes_bytes"],
@@ -177,7 +185,9 @@ def run_heap(ctx):
         "rule": "harness heap <seed> N 200: per kind (alpha string/bytes, uint64, int32, float64, collation string:root and bytes:de, compound) a pool of 300 generated "
                 "keys of which 200 are stored; live heap = runtime.MemStats.HeapAlloc after two forced collections, taken before the tree exists, after the build, after N "
                 "queries (Search present/absent/partial, Minimum/Maximum, every 64th an iteration/TopK/BottomK/Range/Prefix), after N overwrites, after N delete+insert "
-                "rounds at constant size, and after deleting every key. Thresholds: %.0f B/op per phase, %d B retained when empty, collation buffer length <= max(1024, 8 x longest "
+                "rounds at constant size, and after deleting every key; one query method at a time (incl. N/2 Search/Delete of keys never asked about before: what a tree "
+                "remembers per distinct queried key grows only there); a bulk build-and-empty of 120000 / 60000 keys; and a cross-tree phase (a tree with 32 KiB values whose node4s collapse "
+                "and node16s shrink, a small tree built from the pool right after each release, the big tree dropped: the small trees may retain 0 B). Thresholds: %.0f B/op per phase, %d B retained when empty, collation buffer length <= max(1024, 8 x longest "
                 "sort key). evaluations = tree operations performed; distinct_nontrivial = (seed, kind) measurements within all thresholds, each covering 3N operations."
                 % (HEAP_BYTES_PER_OP, HEAP_EMPTY_RETAINED),
         "samples": samples[:8] or [{"note": "no run completed"}],
@@ -187,7 +197,7 @@ def run_heap(ctx):
                        "Properties/C17.v when present (see proof.*).",
         "exhaustive": False,
         "runs": runs,
-        "thresholds": {"bytes_per_op": HEAP_BYTES_PER_OP, "empty_retained_bytes": HEAP_EMPTY_RETAINED},
+        "thresholds": {"bytes_per_op": HEAP_BYTES_PER_OP, "empty_retained_bytes": HEAP_EMPTY_RETAINED, "bulk_retained_bytes": HEAP_BULK_RETAINED, "cross_tree_retained_bytes": HEAP_CROSS_RETAINED},
     }
     cov.update(ctx.stats)
     return finish(ctx, cov, RUNTIME_ASSUMPTIONS, proof)
